@@ -20,10 +20,13 @@ import numpy as np
 from ..common import call_impl
 
 RULE = ("random acyclic programs (3-12 primitive modules quick, up to 40 thorough; kinds lin/mul/dot/sq/fan/cat(concat,split)/sink; "
-        "plain, basic-slice, index-array, tuple and nested-slice signals on inputs and outputs; nesting depth <= 3; seeds on random "
-        "subsets of terminal/intermediate/source signals incl. none; one or two response/seed/sensitivity/reset rounds) plus a malformed "
-        "stream (missing states, arity mismatch, double writes, read-before-write). distinct = distinct program specs; a case is "
-        "non-trivial when at least one sensitivity is produced or an error class is compared")
+        "1-D and 2-D base arrays; plain, basic-slice, ndarray-index, python-list-index, tuple (of slices / ndarrays / lists, one per axis) "
+        "and nested-slice signals on inputs and outputs; nesting depth <= 3; seeds on random subsets of terminal/intermediate/source "
+        "signals incl. none; one or two response/seed/sensitivity/reset rounds), a 'late' stream (networks put together by append() "
+        "calls in which nested networks of depth 1-3 receive modules after they were nested; 2-3 complete rounds; sig_in/sig_out of "
+        "every network compared as recorded at append time) plus a malformed stream (missing states, arity mismatch, double writes, "
+        "read-before-write). distinct = distinct program specs; a case is non-trivial when at least one sensitivity is produced or "
+        "an error class is compared")
 ASSUMPTIONS = [
     "module semantics are those of the harness-defined GenMod kinds (each an exact polynomial map with its coded adjoint); "
     "programs whose array sizes are inconsistent are outside the model (refused as IllSized) and are not generated",
@@ -54,9 +57,10 @@ def genmod_class():
     pm = _pm()
 
     class GenMod(pm.Module):
-        def _prepare(self, kind, out_sizes, A=None, n=None, dtype=np.int64):
+        def _prepare(self, kind, out_sizes, A=None, n=None, dtype=np.int64, out_shapes=None):
             self.kind = kind
             self.out_sizes = list(out_sizes)
+            self.out_shapes = out_shapes
             self.rows = 0 if A is None else len(A)
             self.A = None if not self.rows else np.array(A, dtype=np.int64).reshape(self.rows, -1)
             self.k = n
@@ -93,7 +97,10 @@ def genmod_class():
             else:
                 raise RuntimeError(k)
             c = np.concatenate([[0], np.cumsum(self.out_sizes)]).astype(int)
-            return [y[c[i]:c[i + 1]] for i in range(len(self.out_sizes))]
+            out = [y[c[i]:c[i + 1]] for i in range(len(self.out_sizes))]
+            if self.out_shapes is not None:   # every output gets the shape of the signal it is written to
+                out = [o.reshape(sh) if int(np.prod(sh)) == o.size else o for o, sh in zip(out, self.out_shapes)] + out[len(self.out_shapes):]
+            return out
 
         def _sensitivity(self, *dy):
             inp = [s.state for s in self.sig_in]
@@ -122,7 +129,7 @@ def genmod_class():
                 raise RuntimeError(k)
             sizes = [np.asarray(a).size for a in inp]
             c = np.concatenate([[0], np.cumsum(sizes)]).astype(int)
-            return [ds[c[i]:c[i + 1]] for i in range(len(sizes))]
+            return [ds[c[i]:c[i + 1]].reshape(np.shape(inp[i])) for i in range(len(sizes))]   # shape of the input state
 
     _GENMOD = GenMod
     return GenMod
@@ -131,8 +138,20 @@ def genmod_class():
 # ------------------------------------------------------------------------------------------------------------------
 # slices
 # ------------------------------------------------------------------------------------------------------------------
+def _comp(c):
+    if c[0] == "slice":
+        return slice(c[1], c[2], c[3])
+    if c[0] == "arr":
+        return np.array(c[1], dtype=np.int64)
+    if c[0] == "list":
+        return [int(v) for v in c[1]]
+    raise ValueError(c[0])
+
+
 def sl_obj(desc):
-    """python indexing object(s) from a JSON-able description; returns a list of successive index objects"""
+    """python indexing object(s) from a JSON-able description; returns a list of successive index objects.
+    slice / tup=(slice,) : basic (views);  arr = ndarray index, list = python list index, t = tuple of components
+    (slices, ndarrays, python lists; one per axis) : advanced (copies);  nest = slice of a slice (basic only)."""
     t = desc[0]
     if t == "slice":
         return [slice(desc[1], desc[2], desc[3])]
@@ -140,53 +159,139 @@ def sl_obj(desc):
         return [(slice(desc[1], desc[2], desc[3]),)]
     if t == "arr":
         return [np.array(desc[1], dtype=np.int64)]
+    if t == "list":
+        return [[int(v) for v in desc[1]]]
+    if t == "t":
+        return [tuple(_comp(c) for c in desc[1:])]
     if t == "nest":
         return sl_obj(desc[1]) + sl_obj(desc[2])
     raise ValueError(t)
 
 
-def sl_idx(desc, n):
-    a = np.arange(n)
+def _shape(n):
+    return [int(n)] if isinstance(n, (int, np.integer)) else [int(v) for v in n]
+
+
+def sl_apply(desc, a):
     for o in sl_obj(desc):
         a = a[o]
-    return [int(v) for v in a]
+    return a
+
+
+def sl_idx(desc, n):
+    """flat (C-order) entries of the base selected by the slice, in the order of the sliced array"""
+    shp = _shape(n)
+    a = sl_apply(desc, np.arange(int(np.prod(shp))).reshape(shp))
+    return [int(v) for v in np.asarray(a).ravel()]
+
+
+def sl_shape(desc, n):
+    shp = _shape(n)
+    if desc is None:
+        return tuple(shp)
+    return tuple(np.shape(sl_apply(desc, np.zeros(shp, dtype=np.int8))))
+
+
+def slice_kind(desc):
+    if desc is None:
+        return "plain"
+    if desc[0] == "t":
+        return "t(" + ",".join(c[0] for c in desc[1:]) + ")"
+    return desc[0]
+
+
+def _rand_basic(rng, n):
+    step = rng.choice([1, 1, 1, 2, -1, -2, 3])
+    start = rng.choice([None, rng.randint(-n, n - 1)])
+    stop = rng.choice([None, rng.randint(-n, n)])
+    return ["slice", start, stop, step]
+
+
+def _rand_adv(rng, n, m=None):
+    m = m if m is not None else rng.randint(1, n)
+    l = rng.sample(range(n), m)
+    if rng.random() < 0.3:   # negative indices
+        l = [i - n if rng.random() < 0.5 else i for i in l]
+    return [rng.choice(["arr", "list"]), l]
+
+
+def exact_desc(rng, n, ents):
+    """an advanced index selecting exactly the flat entries `ents` (in this order)"""
+    shp = _shape(n)
+    if len(shp) == 1:
+        d = [rng.choice(["arr", "list"]), list(ents)]
+        return ["t", d] if rng.random() < 0.25 else d
+    rows = [e // shp[1] for e in ents]
+    cols = [e % shp[1] for e in ents]
+    return ["t", [rng.choice(["arr", "list"]), rows], [rng.choice(["arr", "list"]), cols]]
 
 
 def rand_slice(rng, n, length=None, allow_nest=True):
-    """a random slice description of a base of n entries (non-empty, no repeated entries); exact length if requested"""
+    """a random slice description of a base of shape n (int or [r, c]): non-empty, no repeated entries; exact number of
+    entries if requested"""
+    shp = _shape(n)
+    tot = int(np.prod(shp))
     for _ in range(30):
         r = rng.random()
-        if r < 0.4:
-            step = rng.choice([1, 1, 1, 2, -1, -2, 3])
-            start = rng.choice([None, rng.randint(-n, n - 1)])
-            stop = rng.choice([None, rng.randint(-n, n)])
-            d = [rng.choice(["slice", "slice", "tup"]), start, stop, step]
+        if len(shp) == 2:
+            if r < 0.25:      # row selection only
+                d = rng.choice([_rand_basic(rng, shp[0]), _rand_adv(rng, shp[0])])
+                if d[0] == "slice" and rng.random() < 0.3:
+                    d = ["tup"] + d[1:]
+            else:
+                cs = []
+                for ax in range(2):
+                    cs.append(_rand_basic(rng, shp[ax]) if rng.random() < 0.45 else _rand_adv(rng, shp[ax]))
+                if cs[0][0] != "slice" and cs[1][0] != "slice":   # two index arrays are paired: equal lengths
+                    m = min(len(cs[0][1]), len(cs[1][1]))
+                    cs[0][1], cs[1][1] = cs[0][1][:m], cs[1][1][:m]
+                d = ["t"] + cs
+        elif r < 0.35:
+            d = _rand_basic(rng, tot)
+            if rng.random() < 0.3:
+                d = ["tup"] + d[1:]
         elif r < 0.8 or not allow_nest:
-            m = length if length is not None else rng.randint(1, n)
-            if m > n:
+            if length is not None and length > tot:
                 continue
-            d = ["arr", rng.sample(range(n), m)]
-            if rng.random() < 0.3:   # negative indices
-                d[1] = [i - n if rng.random() < 0.5 else i for i in d[1]]
+            d = _rand_adv(rng, tot, length)
+            if rng.random() < 0.25:
+                d = ["t", d]
         else:
-            d1 = rand_slice(rng, n, None, allow_nest=False)
-            if d1[0] == "arr":
+            d1 = rand_slice(rng, tot, None, allow_nest=False)
+            if d1[0] not in ("slice", "tup"):
                 continue
-            n1 = len(sl_idx(d1, n))
+            n1 = len(sl_idx(d1, tot))
             d2 = rand_slice(rng, n1, None, allow_nest=False)
-            if d2[0] == "arr":
+            if d2[0] not in ("slice", "tup"):
                 continue
             d = ["nest", d1, d2]
-        idx = sl_idx(d, n)
+        try:
+            idx = sl_idx(d, shp)
+        except (IndexError, ValueError):
+            continue
         if len(idx) == 0 or len(set(idx)) != len(idx):
             continue
         if length is not None and len(idx) != length:
             continue
         return d
-    if length is not None and length <= n:
-        s0 = rng.randint(0, n - length)
+    if length is not None and length <= tot:
+        if len(shp) == 2 or rng.random() < 0.5:
+            return exact_desc(rng, shp, rng.sample(range(tot), length))
+        s0 = rng.randint(0, tot - length)
         return ["slice", s0, s0 + length, 1]
     return ["slice", None, None, 1]
+
+
+def rand_shape(rng, n):
+    """shape of a base with n entries: 1-D, or 2-D (r, c) with r*c = n"""
+    if n >= 1 and rng.random() < 0.35:
+        r = rng.choice([d for d in range(1, n + 1) if n % d == 0])
+        return [r, n // r]
+    return [n]
+
+
+def base_shape(bd):
+    return bd.get("shape") or [bd["len"]]
 
 
 # ------------------------------------------------------------------------------------------------------------------
@@ -209,16 +314,16 @@ class Gen:
         self.nmods = nmods
 
     # -- bases and signals ---------------------------------------------------------------------
-    def new_base(self, n, state, sens=None):
-        self.bases.append({"len": n, "keep": sens is not None, "state": state, "sens": sens})
+    def new_base(self, n, state, sens=None, shape=None):
+        self.bases.append({"len": n, "keep": sens is not None, "state": state, "sens": sens,
+                           "shape": shape if shape is not None else rand_shape(self.rng, n)})
         b = len(self.bases) - 1
         self.written[b] = set()
         self.readset[b] = set()
         return b
 
     def sig(self, b, desc=None, reuse=True):
-        n = self.bases[b]["len"]
-        idx = None if desc is None else sl_idx(desc, n)
+        idx = None if desc is None else sl_idx(desc, base_shape(self.bases[b]))
         if reuse:
             for i, s in enumerate(self.sigs):
                 if s["base"] == b and s["sl"] == desc:
@@ -264,7 +369,7 @@ class Gen:
         if (length is None or length == n) and rng.random() < 0.6:
             sid = self.sig(b, None)
         else:
-            sid = self.sig(b, rand_slice(rng, n, length), reuse=rng.random() < 0.5)
+            sid = self.sig(b, rand_slice(rng, base_shape(self.bases[b]), length), reuse=rng.random() < 0.5)
         self.consumed.add(b)
         self.readset[b].update(self.sig_ents(sid))
         return sid
@@ -293,15 +398,16 @@ class Gen:
                 cands.append((b, free))
         if cands and rng.random() < 0.5:
             b, free = rng.choice(cands)
+            bd = self.bases[b]
             ents = rng.sample(free, z)
             if rng.random() < 0.5:
                 ents.sort()
-            desc = ["arr", ents]
+            desc = exact_desc(rng, base_shape(bd), ents)
         else:
             n = z + rng.randint(0, 3)
             b = self.new_base(n, [rng.randint(-3, 3) for _ in range(n)],
                               [rng.randint(-2, 2) for _ in range(n)] if rng.random() < 0.08 else None)
-            desc = rand_slice(rng, n, z)
+            desc = rand_slice(rng, base_shape(self.bases[b]), z)
         sid = self.sig(b, desc, reuse=False)
         self.written[b].update(self.sig_ents(sid))
         return sid, b
@@ -444,8 +550,8 @@ def depth_of(prog):
     return 1 + max([depth_of(it["net"]) for it in prog if "net" in it] + [0])
 
 
-def gen_ops(rng, g, spec):
-    """response / seeds / sensitivity / reset rounds"""
+def gen_ops(rng, g, spec, rounds=0):
+    """response / seeds / sensitivity / reset rounds (rounds > 0: exactly that many complete rounds, each ended by reset)"""
     mods = flat_mods(spec["prog"])
     written_b = {g.sigs[s]["base"] for m in mods for s in m["outs"]}
     terminals = [b for b in written_b if b not in g.consumed]
@@ -470,13 +576,30 @@ def gen_ops(rng, g, spec):
             if rng.random() < 0.7:
                 sid = g.sig(b, None)
             else:
-                sid = g.sig(b, rand_slice(rng, n), reuse=rng.random() < 0.5)
+                sid = g.sig(b, rand_slice(rng, base_shape(g.bases[b])), reuse=rng.random() < 0.5)
             if rng.random() < 0.05:
                 ops.append(["seed", sid, None])
             else:
                 ops.append(["seed", sid, [rng.randint(-3, 3) for _ in range(g.sig_len(sid))]])
         return ops
 
+    def sets():
+        ops = []
+        for b in srcs:
+            if rng.random() < 0.5:
+                sid = g.sig(b, None) if rng.random() < 0.7 else g.sig(b, rand_slice(rng, base_shape(g.bases[b])), reuse=False)
+                ops.append(["set", sid, [rng.randint(-3, 3) for _ in range(g.sig_len(sid))]])
+        return ops
+
+    if rounds:
+        ops = []
+        for r in range(rounds):
+            if r and rng.random() < 0.6:
+                ops += sets()
+            ops += [["resp"]] + seeds() + [["sens"]]
+            if r < rounds - 1 or rng.random() < 0.8:
+                ops.append(["reset"])
+        return ops
     ops = [["resp"]] + seeds() + [["sens"]]
     if rng.random() < 0.1:
         ops.append(["sens"])                   # second sweep accumulates
@@ -486,7 +609,7 @@ def gen_ops(rng, g, spec):
         for b in srcs:
             if rng.random() < 0.5:
                 n = g.bases[b]["len"]
-                sid = g.sig(b, None) if rng.random() < 0.7 else g.sig(b, rand_slice(rng, n), reuse=False)
+                sid = g.sig(b, None) if rng.random() < 0.7 else g.sig(b, rand_slice(rng, base_shape(g.bases[b])), reuse=False)
                 ops.append(["set", sid, [rng.randint(-3, 3) for _ in range(g.sig_len(sid))]])
         ops += [["resp"]] + seeds() + [["sens"]]
         if rng.random() < 0.7:
@@ -508,6 +631,68 @@ def make_case(rng, quick, small=False):
     spec = g.spec(depth=rng.choice([0, 1, 2, 2]))
     spec["ops"] = gen_ops(rng, g, spec)
     spec["sigs"] = g.sigs     # gen_ops may add seed signals
+    spec["deg"] = max(list(g.deg.values()) + [1])
+    return spec
+
+
+# ------------------------------------------------------------------------------------------------------------------
+# networks put together by append(): nested networks that are extended AFTER they were nested
+# ------------------------------------------------------------------------------------------------------------------
+def make_build(rng, prog):
+    """the nested program as a sequence of `Network.append` calls on initially empty networks (0 = outermost).  The items
+    of every network are appended in order, in 1-3 calls; the calls of different networks are interleaved, so that a nested
+    network receives modules after it was appended to its parent (and the parent to ITS parent)."""
+    nets = []
+
+    def walk(items):
+        k = len(nets)
+        nets.append(None)
+        nets[k] = [{"ref": walk(it["net"])} if "net" in it else it for it in items]
+        return k
+    walk(prog)
+    queues = []
+    for k, lst in enumerate(nets):
+        chunks, i = [], 0
+        while i < len(lst):
+            ln = rng.randint(1, len(lst) - i) if rng.random() < 0.6 else 1
+            chunks.append(lst[i:i + ln])
+            i += ln
+        if rng.random() < 0.1:
+            chunks.insert(rng.randint(0, len(chunks)), [])      # append() of nothing returns early
+        queues.append(chunks)
+    events = []
+    mode = rng.choice(["outer_first", "outer_first", "random", "random", "inner_first"])
+    if mode == "outer_first":        # every nested network is still empty when it is nested and is filled afterwards
+        for k, ch in enumerate(queues):
+            events += [[k, c] for c in ch]
+    elif mode == "inner_first":      # the classical way: complete networks are nested
+        for k in reversed(range(len(queues))):
+            events += [[k, c] for c in queues[k]]
+    else:
+        left = [k for k, ch in enumerate(queues) if ch]
+        while left:
+            k = rng.choice(left)
+            events.append([k, queues[k].pop(0)])
+            if not queues[k]:
+                left.remove(k)
+    return {"nnets": len(nets), "events": events, "mode": mode}
+
+
+def make_late_case(rng, quick):
+    nm = rng.randint(2, 9) if quick else rng.randint(2, 16)
+    g = Gen(rng, nm, rng.choice([2, 4, 4, 6]))
+    spec = g.spec(depth=rng.choice([1, 2, 3]))
+    prog = spec["prog"]
+    if depth_of(prog) == 1:           # make sure something is nested: a suffix of the module list becomes a sub-network
+        k = rng.randint(0, len(prog) - 1)
+        prog = prog[:k] + [{"net": prog[k:]}]
+        if rng.random() < 0.4 and len(prog[-1]["net"]) >= 2:
+            j = rng.randint(1, len(prog[-1]["net"]) - 1)
+            prog[-1]["net"] = prog[-1]["net"][:j] + [{"net": prog[-1]["net"][j:]}]
+        spec["prog"] = prog
+    spec["build"] = make_build(rng, spec["prog"])
+    spec["ops"] = gen_ops(rng, g, spec, rounds=rng.choice([2, 2, 3]))
+    spec["sigs"] = g.sigs
     spec["deg"] = max(list(g.deg.values()) + [1])
     return spec
 
@@ -537,7 +722,7 @@ def make_malformed(rng):
         else:
             m["osz"] = m["osz"] + [0]
     elif kind == "seed_slice_nostate":
-        b = g.new_base(3, None)
+        b = g.new_base(3, None, shape=[3])
         sid = g.sig(b, ["slice", 0, 2, 1])
         ops = [["resp"], ["seed", sid, [1, 2]], ["sens"]]
     elif kind == "double_write":
@@ -582,8 +767,9 @@ def _build(spec, dtype=np.int64, flatten=False):
     GenMod = genmod_class()
     bases = []
     for i, b in enumerate(spec["bases"]):
-        st = None if b["state"] is None else np.array(b["state"], dtype=dtype)
-        se = None if b["sens"] is None else np.array(b["sens"], dtype=dtype)
+        shp = base_shape(b)
+        st = None if b["state"] is None else np.array(b["state"], dtype=dtype).reshape(shp)
+        se = None if b["sens"] is None else np.array(b["sens"], dtype=dtype).reshape(shp)
         bases.append(pm.Signal(f"b{i}", state=st, sensitivity=se))
     sigs = []
     for s in spec["sigs"]:
@@ -593,22 +779,33 @@ def _build(spec, dtype=np.int64, flatten=False):
                 o = o[ix]
         sigs.append(o)
 
+    def mkmod(it):
+        kw = {"dtype": dtype, "out_shapes": [sig_shape(spec, i) for i in it["outs"]]}
+        if it["k"] == "lin":
+            kw["A"] = it["A"]
+        if it["k"] == "fan":
+            kw["n"] = it["n"]
+        return GenMod([sigs[i] for i in it["ins"]], [sigs[i] for i in it["outs"]], it["k"], it["osz"], **kw)
+
     def mk(items):
-        mods = []
-        for it in items:
-            if "net" in it:
-                mods.append(pm.Network(mk(it["net"])))
-            else:
-                kw = {"dtype": dtype}
-                if it["k"] == "lin":
-                    kw["A"] = it["A"]
-                if it["k"] == "fan":
-                    kw["n"] = it["n"]
-                mods.append(GenMod([sigs[i] for i in it["ins"]], [sigs[i] for i in it["outs"]], it["k"], it["osz"], **kw))
-        return mods
-    items = flat_mods(spec["prog"]) if flatten else spec["prog"]
-    net = pm.Network(mk(items))
+        return [pm.Network(mk(it["net"])) if "net" in it else mkmod(it) for it in items]
+    if spec.get("build") and not flatten:
+        # networks put together by append() calls in the given order; a nested network may be extended after it was nested
+        nets = [pm.Network() for _ in range(spec["build"]["nnets"])]
+        for k, items in spec["build"]["events"]:
+            nets[k].append([nets[it["ref"]] if "ref" in it else mkmod(it) for it in items])
+        net = nets[0]
+        net._all_nets = nets
+    else:
+        items = flat_mods(spec["prog"]) if flatten else spec["prog"]
+        net = pm.Network(mk(items))
+        net._all_nets = []
     return net, bases, sigs
+
+
+def sig_shape(spec, sid):
+    sg = spec["sigs"][sid]
+    return sl_shape(sg["sl"] if sg["idx"] is not None else None, base_shape(spec["bases"][sg["base"]]))
 
 
 def _tolist(a):
@@ -627,7 +824,9 @@ def run_impl(spec, dtype=np.int64, flatten=False):
         net, bases, sigs = build(spec, dtype, flatten)
         ids = {id(s): i for i, s in enumerate(sigs)}
         out = {"snaps": [], "err": None,
-               "sigin": sorted(ids[id(s)] for s in net.sig_in), "sigout": sorted(ids[id(s)] for s in net.sig_out)}
+               "sigin": sorted(ids[id(s)] for s in net.sig_in), "sigout": sorted(ids[id(s)] for s in net.sig_out),
+               "netsig": [[sorted(ids[id(s)] for s in nk.sig_in), sorted(ids[id(s)] for s in nk.sig_out)]
+                          for nk in net._all_nets]}
         for op in spec["ops"]:
             name = op[0]
             if name == "resp":
@@ -638,11 +837,11 @@ def run_impl(spec, dtype=np.int64, flatten=False):
                 r = call_impl(net.reset)
             elif name == "seed":
                 def f(sid=op[1], v=op[2]):
-                    sigs[sid].sensitivity = None if v is None else np.array(v, dtype=dtype)
+                    sigs[sid].sensitivity = None if v is None else np.array(v, dtype=dtype).reshape(sig_shape(spec, sid))
                 r = call_impl(f)
             elif name == "set":
                 def f(sid=op[1], v=op[2]):
-                    sigs[sid].state = np.array(v, dtype=dtype)
+                    sigs[sid].state = np.array(v, dtype=dtype).reshape(sig_shape(spec, sid))
                 r = call_impl(f)
             else:
                 continue
@@ -655,9 +854,12 @@ def run_impl(spec, dtype=np.int64, flatten=False):
 
 
 def model_req(spec):
-    return {"m": "c02.run", "bases": spec["bases"],
-            "sigs": [{"base": s["base"], "idx": s["idx"]} for s in spec["sigs"]],
-            "prog": spec["prog"], "ops": spec["ops"]}
+    req = {"m": "c02.run", "bases": [{k: b[k] for k in ("len", "keep", "state", "sens")} for b in spec["bases"]],
+           "sigs": [{"base": s["base"], "idx": s["idx"]} for s in spec["sigs"]],
+           "prog": spec["prog"], "ops": spec["ops"]}
+    if spec.get("build"):
+        req["build"] = spec["build"]
+    return req
 
 
 # ------------------------------------------------------------------------------------------------------------------
@@ -707,78 +909,130 @@ def source_entries(spec):
             for e in range(bd["len"]) if (b, e) not in written]
 
 
+def connected_entries(spec):
+    """(base, entry) pairs covered by a signal that is attached to some module"""
+    out = set()
+    for m in flat_mods(spec["prog"]):
+        for sid in list(m["ins"]) + list(m["outs"]):
+            sg = spec["sigs"][sid]
+            n = spec["bases"][sg["base"]]["len"]
+            for e in (range(n) if sg["idx"] is None else sg["idx"]):
+                out.add((sg["base"], e))
+    return out
+
+
 def oracle(spec, rng=None, max_fd=4, flat_check=True):
-    """returns None or (what, detail).  Only for well-formed programs whose ops start with resp, seeds, sens."""
-    seeds = _first_round(spec)
-    if seeds is None:
+    """returns None or (what, detail).  Only for well-formed programs whose ops start with resp, seeds, sens.
+    EVERY sweep that follows a response is checked: the sensitivities it leaves on the source entries must be the
+    derivative of the seeded combination of the states.  The seed vector of the first sweep (and of a sweep that follows
+    another sweep without reset) is what the signals hold just before it; for a sweep that follows a reset() it is what
+    was seeded since that reset (reset() must have cleared every signal attached to a module), so sensitivities that
+    survive a reset and are propagated in the next round are a violation."""
+    if _first_round(spec) is None:
         return None
-    sub = dict(spec)
-    sub["ops"] = [["resp"]] + seeds + [["sens"]]
     with warnings.catch_warnings():
         warnings.simplefilter("ignore")
-        # back-propagation on the real network (python-int data: exact, no overflow)
-        net, bases, sigs = build(sub, dtype=object)
-        net.response()
-        # the seed operations are applied in order (a later seed may overwrite an earlier one): the effective
-        # seed vector is what the signals hold just before the sweep
-        for op in seeds:
-            sigs[op[1]].sensitivity = None if op[2] is None else np.array(op[2], dtype=object)
-        wvec = [None if b.sensitivity is None else [int(v) for v in np.asarray(b.sensitivity).ravel()] for b in bases]
-        net.sensitivity()
-        back = [None if b.sensitivity is None else [int(v) for v in np.asarray(b.sensitivity).ravel()] for b in bases]
+        # the real network on python-int data: exact, no overflow
+        net, bases, sigs = build(spec, dtype=object)
         srcs = source_entries(spec)
-
-        def g_of(states):
-            """seeded combination of the final states"""
-            tot = 0
-            for b, w in enumerate(wvec):
-                if w is None:
-                    continue
-                st = np.asarray(states[b].state).ravel()
-                for e, we in enumerate(w):
-                    if we != 0:
-                        tot = tot + we * st[e]
-            return tot
-
-        def evaluate(pert):
-            """response of a fresh copy of the initial states with pert = {(b,e): value} replaced"""
-            for b, bd in enumerate(spec["bases"]):
-                if bd["state"] is None:
-                    bases[b].state = None
-                else:
-                    a = np.array(bd["state"], dtype=object)
-                    for (pb, pe), v in pert.items():
-                        if pb == b:
-                            a[pe] = v
-                    bases[b].state = a
-            net.response()
-            return g_of(bases)
-
-        # forward-mode dual numbers on every source entry
-        for (b, e) in srcs:
-            x0 = spec["bases"][b]["state"][e]
-            gd = evaluate({(b, e): Dual(x0, 1)})
-            d = gd.b if isinstance(gd, Dual) else 0
-            got = 0 if back[b] is None else back[b][e]
-            if d != got:
-                return ("back-propagated sensitivity differs from the total derivative (dual numbers)",
-                        {"base": b, "entry": e, "derivative": int(d), "sensitivity": int(got)})
-        # exact forward differences (Newton series up to the polynomial degree) on a few entries
+        conn = connected_entries(spec)
         D = int(spec.get("deg", 0))
-        if 1 <= D <= DEG_CAP and srcs:
-            probe = srcs if rng is None or len(srcs) <= max_fd else rng.sample(srcs, max_fd)
-            for (b, e) in probe:
-                x0 = spec["bases"][b]["state"][e]
-                vals = [evaluate({(b, e): x0 + t}) for t in range(D + 1)]
-                diffs = list(vals)
-                deriv = Fraction(0)
-                for k in range(1, D + 1):
-                    diffs = [diffs[i + 1] - diffs[i] for i in range(len(diffs) - 1)]
-                    deriv += Fraction((-1) ** (k + 1) * diffs[0], k)
-                got = 0 if back[b] is None else back[b][e]
-                if deriv != got:
-                    return ("back-propagated sensitivity differs from the total derivative (exact forward differences)",
-                            {"base": b, "entry": e, "derivative": str(deriv), "sensitivity": int(got), "order": D})
+
+        def vec():
+            return [None if b.sensitivity is None else [int(v) for v in np.asarray(b.sensitivity).ravel()] for b in bases]
+
+        def check(wvec, back, restrict, sweep_no):
+            cur = [None if b.state is None else list(np.asarray(b.state).ravel()) for b in bases]
+
+            def g_of():
+                tot = 0
+                for b, w in enumerate(wvec):
+                    if w is None:
+                        continue
+                    st = np.asarray(bases[b].state).ravel()
+                    for e, we in enumerate(w):
+                        if we != 0:
+                            tot = tot + we * st[e]
+                return tot
+
+            def evaluate(pert):
+                """response from the current source states with pert = {(b,e): value} replaced"""
+                for b, bd in enumerate(spec["bases"]):
+                    if cur[b] is None:
+                        bases[b].state = None
+                    else:
+                        a = np.array(cur[b], dtype=object)
+                        for (pb, pe), v in pert.items():
+                            if pb == b:
+                                a[pe] = v
+                        bases[b].state = a.reshape(base_shape(bd))
+                net.response()
+                return g_of()
+
+            probe_all = [be for be in srcs if cur[be[0]] is not None and (not restrict or be in conn)]
+            try:
+                for (b, e) in probe_all:   # forward-mode dual numbers on every source entry
+                    gd = evaluate({(b, e): Dual(cur[b][e], 1)})
+                    d = gd.b if isinstance(gd, Dual) else 0
+                    got = 0 if back[b] is None else back[b][e]
+                    if d != got:
+                        return ("back-propagated sensitivity differs from the total derivative (dual numbers)"
+                                + (" in a round that follows reset(): sensitivities survived the reset" if restrict else ""),
+                                {"sweep": sweep_no, "base": b, "entry": e, "derivative": int(d), "sensitivity": int(got)})
+                if 1 <= D <= DEG_CAP and probe_all:   # exact forward differences (Newton series up to the degree)
+                    probe = probe_all if rng is None or len(probe_all) <= max_fd else rng.sample(probe_all, max_fd)
+                    for (b, e) in probe:
+                        vals = [evaluate({(b, e): cur[b][e] + t}) for t in range(D + 1)]
+                        diffs = list(vals)
+                        deriv = Fraction(0)
+                        for k in range(1, D + 1):
+                            diffs = [diffs[i + 1] - diffs[i] for i in range(len(diffs) - 1)]
+                            deriv += Fraction((-1) ** (k + 1) * diffs[0], k)
+                        got = 0 if back[b] is None else back[b][e]
+                        if deriv != got:
+                            return ("back-propagated sensitivity differs from the total derivative (exact forward differences)",
+                                    {"sweep": sweep_no, "base": b, "entry": e, "derivative": str(deriv), "sensitivity": int(got),
+                                     "order": D})
+            finally:
+                evaluate({})
+            return None
+
+        expect = None       # expected seed vector of the next sweep when it follows a reset()
+        fresh = False       # the states are those of a response() of the current inputs
+        sweep_no = 0
+        for op in spec["ops"]:
+            name = op[0]
+            if name == "resp":
+                net.response()
+                fresh = True
+            elif name == "set":
+                sigs[op[1]].state = np.array(op[2], dtype=object).reshape(sig_shape(spec, op[1]))
+                fresh = False
+            elif name == "seed":
+                sid, v = op[1], op[2]
+                sigs[sid].sensitivity = None if v is None else np.array(v, dtype=object).reshape(sig_shape(spec, sid))
+                if expect is not None:
+                    sg = spec["sigs"][sid]
+                    n = spec["bases"][sg["base"]]["len"]
+                    idx = list(range(n)) if sg["idx"] is None else sg["idx"]
+                    for j, e in enumerate(idx):
+                        expect[sg["base"]][e] = 0 if v is None else int(v[j])
+            elif name == "reset":
+                net.reset()
+                act = vec()
+                expect = [[0] * bd["len"] if a is None else list(a) for a, bd in zip(act, spec["bases"])]
+                for (b, e) in conn:
+                    expect[b][e] = 0
+            elif name == "sens":
+                wvec = expect if expect is not None else vec()
+                restrict = expect is not None
+                net.sensitivity()
+                if fresh:
+                    why = check(wvec, vec(), restrict, sweep_no)
+                    if why:
+                        return why
+                expect = None
+                sweep_no += 1
     if flat_check and depth_of(spec["prog"]) > 1:
         a = run_impl(spec)
         f = run_impl(spec, flatten=True)
@@ -905,6 +1159,8 @@ def correspondence(ctx):
         specs.append(("main", make_case(rng, ctx.quick)))
     for i in range(n_small):
         specs.append(("small", make_case(rng, ctx.quick, small=True)))
+    for i in range(150 if ctx.quick else 900):
+        specs.append(("late", make_late_case(rng, ctx.quick)))
     for i in range(n_bad):
         specs.append(("malformed", make_malformed(rng)))
     res = ctx.model([model_req(s) for _, s in specs])
@@ -921,10 +1177,11 @@ def correspondence(ctx):
             ctx.skipped_boundary += 1
             continue
         impl = run_impl(spec)
-        impl_cmp = {k: impl[k] for k in ("snaps", "err", "sigin", "sigout")}
+        CMP = ("snaps", "err", "sigin", "sigout", "netsig")
+        impl_cmp = {k: impl[k] for k in CMP}
         mods = flat_mods(spec["prog"])
         nontrivial = impl["err"] is not None or any(any(x is not None for x in sn["se"]) for sn in impl["snaps"])
-        ok = ctx.compare_exact(stream, _strip(spec), impl_cmp, {k: mo[k] for k in ("snaps", "err", "sigin", "sigout")},
+        ok = ctx.compare_exact(stream, _strip(spec), impl_cmp, {k: mo[k] for k in CMP},
                                key=(stream, json.dumps(_strip(spec), sort_keys=True)), nontrivial=nontrivial)
         # the hypotheses of the chain-rule theorems (`Prog.ssaEntries`, `Prog.rawOrdered`, evaluated by the model on this very
         # program) must hold for every generated well-formed program; the malformed stream shows that they discriminate
@@ -941,11 +1198,17 @@ def correspondence(ctx):
             if len(set(mm["ins"])) < len(mm["ins"]):
                 ctx.branch("repeated_input")
         for s in spec["sigs"]:
-            ctx.branch("sig." + ("plain" if s["sl"] is None else s["sl"][0]))
+            ctx.branch("sig." + slice_kind(s["sl"]) + (".2d" if len(base_shape(spec["bases"][s["base"]])) == 2 else ""))
         if impl["err"]:
             ctx.branch("err." + impl["err"])
         if stream == "malformed":
             ctx.branch("malformed." + spec.get("kind", "?"))
+        if stream == "late":
+            ctx.branch("late.order=" + spec["build"]["mode"])
+            ctx.branch("late.nets=%d" % min(spec["build"]["nnets"], 5))
+            all_out = sorted({sid for mm in mods for sid in mm["outs"]})
+            ctx.branch("late.outer_sig_out_" + ("stale" if impl["sigout"] != all_out else "complete"))
+            ctx.branch("late.rounds=%d" % sum(1 for o in spec["ops"] if o[0] == "sens"))
         seeds = _first_round(spec)
         if seeds is not None:
             ctx.branch("seeds=%d" % min(len(seeds), 4))
@@ -1001,7 +1264,7 @@ def search(ctx, disagreements):
     if not found:
         # sweep of fresh small programs with the full oracle
         for i in range(300 if ctx.quick else 3000):
-            spec = make_case(ctx.rng, True, small=(i % 2 == 0))
+            spec = make_late_case(ctx.rng, True) if i % 3 == 2 else make_case(ctx.rng, True, small=(i % 2 == 0))
             r = call_impl(oracle, spec, None, 10 ** 6)
             if r[0] == "err":
                 found.append({"what": f"network raises {r[2][:300]}", "witness": {"spec": _strip(spec)}})
